@@ -10,7 +10,9 @@
 //!   cache runseq   <limit> <tl> <unit>   stdin: JSON [[op,route#,host,size,id,d],...]  (replay of one case)
 //!
 //! Edge file: one JSON line per transition, written by TLC (MC_Cache.tla, EdgeOut):
-//!   [state, [op,route#,host,size,id,d], [hit,size,id,age], panicked, state]   state = [[[route#,host,size,id,age]..], total]
+//!   [state, [op,route#,host,size,id,d], [hit,size,id,age], panicked, state, lookups]
+//!   state = [[[route#,host,size,id,age]..], total]; lookups = [[route#,host,hit,size,id,age]..] = the keys for
+//!   which get must hit in the target state, and with what (every other key must miss)
 //! The harness never computes what the cache *should* do: every expectation is a lookup in TLC's graph.
 //!
 //! Clock.  Cache reads SystemTime::now() internally and has no clock parameter.  This binary defines
@@ -49,8 +51,7 @@ const BASE: i64 = 2_000_000_000;
 /// Overrides libc's clock_gettime for this process (the executable's definition wins at link time).
 #[no_mangle]
 pub unsafe extern "C" fn clock_gettime(clk: libc::clockid_t, ts: *mut libc::timespec) -> libc::c_int {
-    let r = libc::syscall(libc::SYS_clock_gettime, clk as libc::c_long, ts) as libc::c_int;
-    if r == 0 && clk == libc::CLOCK_REALTIME {
+    if clk == libc::CLOCK_REALTIME && !ts.is_null() {
         let mut v = TL_CLOCK.try_with(|c| c.get()).unwrap_or(-1);
         if v < 0 {
             v = GLOBAL_CLOCK.load(Ordering::SeqCst);
@@ -58,9 +59,10 @@ pub unsafe extern "C" fn clock_gettime(clk: libc::clockid_t, ts: *mut libc::time
         if v >= 0 {
             (*ts).tv_sec = v as libc::time_t;
             (*ts).tv_nsec = 0;
+            return 0;
         }
     }
-    r
+    libc::syscall(libc::SYS_clock_gettime, clk as libc::c_long, ts) as libc::c_int
 }
 
 fn set_vclock(v: i64) {
@@ -177,7 +179,9 @@ struct Edge {
 
 struct Table {
     state_text: Vec<String>,
+    state_keys: Vec<Vec<(u8, u8)>>, // keys of the entries of each state, in queue order
     out: Vec<Vec<Edge>>,
+    obs: Vec<Vec<(u8, u8, Obs)>>, // per state: expected lookup result for every key (empty for the initial state)
     init: u32,
     edges: usize,
     keys: Vec<(u8, u8)>, // every (route, host) occurring in a set or get
@@ -187,10 +191,12 @@ fn load_table(path: &str) -> Table {
     let f = std::fs::File::open(path).unwrap_or_else(|e| tool_error(&format!("open {}: {}", path, e)));
     let mut ids: HashMap<String, u32> = HashMap::new();
     let mut state_text: Vec<String> = vec![];
+    let mut state_keys: Vec<Vec<(u8, u8)>> = vec![];
     let mut out: Vec<Vec<Edge>> = vec![];
     let mut edges = 0usize;
+    let mut obs: Vec<Vec<(u8, u8, Obs)>> = vec![];
     let mut keyset: std::collections::BTreeSet<(u8, u8)> = Default::default();
-    let mut intern = |v: &Value, state_text: &mut Vec<String>, out: &mut Vec<Vec<Edge>>| -> u32 {
+    let mut intern = |v: &Value, state_text: &mut Vec<String>, state_keys: &mut Vec<Vec<(u8, u8)>>, out: &mut Vec<Vec<Edge>>| -> u32 {
         let s = v.to_string();
         if let Some(i) = ids.get(&s) {
             return *i;
@@ -198,6 +204,7 @@ fn load_table(path: &str) -> Table {
         let i = state_text.len() as u32;
         ids.insert(s.clone(), i);
         state_text.push(s);
+        state_keys.push(v[0].as_array().unwrap().iter().map(|e| (e[0].as_u64().unwrap() as u8, e[1].as_u64().unwrap() as u8)).collect());
         out.push(vec![]);
         i
     };
@@ -207,13 +214,21 @@ fn load_table(path: &str) -> Table {
             continue;
         }
         let v: Value = serde_json::from_str(&line).unwrap_or_else(|e| tool_error(&format!("edge line: {} {}", e, line)));
-        let s = intern(&v[0], &mut state_text, &mut out);
-        let t = intern(&v[4], &mut state_text, &mut out);
+        let s = intern(&v[0], &mut state_text, &mut state_keys, &mut out);
+        let t = intern(&v[4], &mut state_text, &mut state_keys, &mut out);
         let op = OpA::from_json(&v[1]);
         let r = &v[2];
         let res = [r[0].as_u64().unwrap() as u32, r[1].as_u64().unwrap() as u32, r[2].as_u64().unwrap() as u32, r[3].as_u64().unwrap() as u32];
         if op.op < 2 {
             keyset.insert((op.route, op.host));
+        }
+        if obs.len() < state_text.len() {
+            obs.resize(state_text.len(), vec![]);
+        }
+        if obs[t as usize].is_empty() && !v[5].as_array().unwrap().is_empty() {
+            let g = |x: &Value| x.as_u64().unwrap();
+            obs[t as usize] = v[5].as_array().unwrap().iter()
+                .map(|o| (g(&o[0]) as u8, g(&o[1]) as u8, [g(&o[2]) as u32, g(&o[3]) as u32, g(&o[4]) as u32, g(&o[5]) as u32])).collect();
         }
         out[s as usize].push(Edge { op, res, panic: v[3].as_u64().unwrap() != 0, next: t });
         edges += 1;
@@ -226,7 +241,7 @@ fn load_table(path: &str) -> Table {
         o.sort_by_key(|e| e.op);
         o.dedup_by_key(|e| e.op);
     }
-    Table { state_text, out, init, edges, keys: keyset.into_iter().collect() }
+    Table { state_text, state_keys, out, obs, init, edges, keys: keyset.into_iter().collect() }
 }
 
 fn tool_error(msg: &str) -> ! {
@@ -239,8 +254,12 @@ impl Table {
         let o = &self.out[s as usize];
         o.binary_search_by_key(op, |e| e.op).ok().map(|i| &o[i])
     }
-    fn get_edge(&self, s: u32, route: u8, host: u8) -> Option<&Edge> {
-        self.find(s, &OpA { op: 1, route, host, size: 0, id: 0, d: 0 })
+    /// what get(route, host) must return in state s: the hit listed by TLC for that state, else a miss
+    fn lookup(&self, s: u32, route: u8, host: u8) -> Obs {
+        match self.obs[s as usize].iter().find(|o| o.0 == route && o.1 == host) {
+            Some(o) => o.2,
+            None => [0, 0, 0, 0],
+        }
     }
 }
 
@@ -305,16 +324,13 @@ fn run_checked(t: &Table, limit: usize, tl: usize, unit: usize, seq: &[OpA], che
         s = e.next;
         if i >= check_from {
             for (r, h) in keys {
-                let ge = match t.get_edge(s, *r, *h) {
-                    Some(e) => e,
-                    None => tool_error("graph has no get edge"),
-                };
+                let exp = t.lookup(s, *r, *h);
                 let got = real.get(*r as usize, *h as usize, vnow);
                 gets += 1;
-                if got != Ok(ge.res) {
+                if got != Ok(exp) {
                     return Err(Mismatch {
                         what: format!("state after step: get({},{}) differs from the graph state {}", ROUTES[*r as usize], h, t.state_text[s as usize]),
-                        seq: seq.to_vec(), step: i, exp: json!(ge.res), got: obs_json(&got),
+                        seq: seq.to_vec(), step: i, exp: json!(exp), got: obs_json(&got),
                     });
                 }
             }
@@ -381,8 +397,12 @@ fn cmd_edges(args: &[String]) {
                         let mut seq = path.clone();
                         seq.push(e.op);
                         ne += 1;
-                        // non-trivial edge: changes the state, or is a lookup that misses an existing entry / hits
-                        if e.next != s || (e.op.op == 1 && t.state_text[i].contains(&format!("[{},{},", e.op.route, e.op.host))) {
+                        // non-trivial edge: a set that evicts or replaces (the queue does not simply grow by
+                        // one), or a lookup that misses although an entry for the key is present (stale)
+                        let present = t.state_keys[i].contains(&(e.op.route, e.op.host));
+                        if (e.op.op == 0 && t.state_keys[e.next as usize].len() != t.state_keys[i].len() + 1)
+                            || (e.op.op == 1 && present && e.res[0] == 0)
+                        {
                             nt += 1;
                         }
                         let record = |m: Mismatch| {
@@ -481,7 +501,13 @@ fn cmd_lockstep(args: &[String]) {
     // letters that are lookups, by key
     let keys: Vec<(u8, u8)> = t.keys.clone();
     let key_ix: HashMap<(u8, u8), usize> = keys.iter().enumerate().map(|(i, k)| (*k, i)).collect();
-    let get_letter: Vec<usize> = keys.iter().map(|(r, h)| aix[&OpA { op: 1, route: *r, host: *h, size: 0, id: 0, d: 0 }]).collect();
+    let nk = keys.len();
+    let mut look = vec![[0u32; 4]; n * nk];
+    for s in 0..n {
+        for (k, (r, h)) in keys.iter().enumerate() {
+            look[s * nk + k] = t.lookup(s as u32, *r, *h);
+        }
+    }
     let set_key: Vec<Option<usize>> = alpha.iter().map(|o| if o.op == 0 { Some(key_ix[&(o.route, o.host)]) } else { None }).collect();
 
     let first_len = if len >= 3 { 2 } else { 1 };
@@ -553,7 +579,7 @@ fn cmd_lockstep(args: &[String]) {
                                     if stored & (1 << k) == 0 {
                                         continue;
                                     }
-                                    let exp = res[s * a + get_letter[k]];
+                                    let exp = look[s * nk + k];
                                     let got = real.get(*r as usize, *h as usize, vnow);
                                     tot[2] += 1;
                                     if got != Ok(exp) {
@@ -781,13 +807,13 @@ fn do_get(cache: &RwLock<Cache>, log: &Log, thr: usize, route: &str, host: usize
 }
 
 fn random_size(rng: &mut Rng, limit: usize) -> usize {
-    match rng.below(8) {
+    match rng.below(12) {
         0 => 0,
         1 => limit,
         2 => limit / 2,
         3 => limit.saturating_sub(1),
         4 => (limit / 2 + 1).min(limit),
-        5 => rng.range(0, limit.min(16)),
+        5..=8 => rng.range(0, (limit / 8).max(1).min(limit)),
         _ => rng.range(0, limit),
     }
 }
@@ -810,10 +836,11 @@ fn cmd_random(args: &[String]) {
             let (cache, log, remaining) = (&cache, &log, &remaining);
             sc.spawn(move || {
                 let mut rng = Rng::new(seed.wrapping_mul(31).wrapping_add(th as u64));
-                // 32 keys: 16 routes x 2 hosts
+                // 32 keys: 16 routes x 2 hosts; lookups prefer keys this thread stored recently
+                let mut recent: Vec<(String, usize)> = vec![];
                 while remaining.fetch_sub(1, Ordering::SeqCst) > 0 {
-                    let route = format!("/k{}", rng.below(16));
-                    let host = rng.below(2);
+                    let mut route = format!("/k{}", rng.below(16));
+                    let mut host = rng.below(2);
                     if virt {
                         // the clock moves between calls and (other threads) during calls
                         match rng.below(200) {
@@ -828,7 +855,16 @@ fn cmd_random(args: &[String]) {
                         let data = rng.bytes(size);
                         let mime = *rng.pick(&MIMES);
                         do_set(cache, log, th, &route, host, data, mime, virt);
+                        recent.push((route, host));
+                        if recent.len() > 6 {
+                            recent.remove(0);
+                        }
                     } else {
+                        if !recent.is_empty() && rng.chance(2, 3) {
+                            let (r, h) = rng.pick(&recent).clone();
+                            route = r;
+                            host = h;
+                        }
                         do_get(cache, log, th, &route, host, virt);
                     }
                 }
